@@ -47,6 +47,12 @@ JudgeCmp(e) ==
     /\ Check(e, "LtIsIndexOrder", Len(e.a) = Len(e.b) => (e.lt <=> ia < ib))
     /\ Check(e, "GtIsIndexOrder", Len(e.a) = Len(e.b) => (e.gt_rev <=> ib < ia))
     /\ Check(e, "HashAgrees", same => e.hasheq)
+    \* every ordering operator the class offers (-1 = not offered) agrees with the index order, on ties too
+    /\ Check(e, "OrderOperatorsAgree",
+             Len(e.a) = Len(e.b) => /\ (e.gt # -1 => ((e.gt = 1) <=> ib < ia))
+                                    /\ (e.le # -1 => ((e.le = 1) <=> ia <= ib))
+                                    /\ (e.ge # -1 => ((e.ge = 1) <=> ib <= ia)))
+    /\ Check(e, "Irreflexive", e.selfgt # 1 /\ e.selflt # 1)
 
 JudgeEndSpace(e) ==
     Check(e, "Gapless", seen = 0..(NumGenotypes(e.p, e.a) - 1))
